@@ -45,6 +45,7 @@ class Deep:
         :param config: the config to use.
         """
         self.started = False
+        self.__starting = False
         # start and shutdown are one step each: a second start (or a shutdown) that arrives while the first is still in
         # progress waits for it, it does not run alongside
         self._lifecycle_lock = threading.RLock()
@@ -62,8 +63,20 @@ class Deep:
             self.__start()
 
     def __start(self):
-        if self.started:
+        if self.started or self.__starting:
+            # (the lock is re-entrant: a start() that arrives on the thread that is inside start() - a signal handler -
+            # finds the first one in progress, and does nothing, like any other repeated start)
             return
+        self.__starting = True
+        try:
+            self.__do_start()
+        finally:
+            self.__starting = False
+
+    def __do_start(self):
+        # a start after a shutdown: the delivery pool accepts work again, and what is to be installed is installed anew
+        # (the handler has dropped its tracepoints at shutdown, the next poll must not report their hash as current)
+        self.task_handler.open()
         self.config.plugins = load_plugins(self.config, self.config.PLUGINS)
         default_resource = Resource.create()
         service_name = default_resource.attributes.get(SERVICE_NAME, None)
@@ -84,6 +97,7 @@ class Deep:
         self.config.resource = default_resource
         self.trigger_handler.start()
         try:
+            self.config.tracepoints.reinstall()
             self.grpc.start()
             self.poll.start()
         except BaseException:
